@@ -1,2 +1,78 @@
-From Olareg Require Import Base Index.
-Theorem placeholder : True. Proof. exact I. Qed.
+(* C18 — The repository index keeps its invariants under any insert/remove sequence.
+   Property theorems only (each closed by [exact] of a lemma of IndexProofs.v),
+   non-vacuity examples, regression witnesses of the repaired defects, and
+   Print Assumptions.  Model: Index.v (types/manifest.go). *)
+From Olareg Require Import Base Index IndexProofs.
+Local Open Scope list_scope.
+
+(* every finite sequence of AddDesc / RmDesc / AddChildren, over any universe of
+   digests, tags, subjects and annotation shapes, runs to completion: no slice
+   index is out of range (Go panic) and the loops terminate (no OutOfFuel) *)
+Theorem C18_no_panic : forall (ops : list iop) (i : index), exists i', apply_ops ops i = Ok i'.
+Proof. exact apply_ops_total. Qed.
+
+(* removing a digest removes every reference to it (top level and children) *)
+Theorem C18_rm_digest_total : forall d i i',
+    rm_tag_of d = "" -> d_dig d <> "" -> rm_desc d i = Ok i' ->
+    Forall (fun e => d_dig e <> d_dig d) (top i') /\ Forall (fun e => d_dig e <> d_dig d) (child i').
+Proof. exact rm_desc_digest_total. Qed.
+
+(* removing a tag keeps the digest reachable *)
+Theorem C18_untag_keeps : forall d i i',
+    rm_tag_of d <> "" -> d_dig d <> "" -> rm_desc d i = Ok i' ->
+    Exists (fun e => d_dig e = d_dig d) (top i) -> Exists (fun e => d_dig e = d_dig d) (top i').
+Proof. exact rm_desc_untag_keeps. Qed.
+
+(* lookup by digest succeeds exactly for digests present at top level or recorded
+   as children (every valid digest string; it is never mistaken for a tag) *)
+Theorem C18_lookup_iff : forall arg i,
+    dvalid arg = true ->
+    ((exists d, get_desc arg i = Some d)
+     <-> (Exists (fun e => d_dig e = arg) (top i) \/ Exists (fun e => d_dig e = arg) (child i))).
+Proof. intros arg i H. exact (get_desc_digest_iff arg i (dvalid_not_tag arg H) H). Qed.
+
+(* ---- non-vacuity and regression witnesses (vm_compute on concrete histories) ---- *)
+Definition dA := "sha256:aaaaaaaaaaaaaaaaaaaaaaaaaaaaaaaaaaaaaaaaaaaaaaaaaaaaaaaaaaaaaaaa".
+Definition dM := "sha256:bbbbbbbbbbbbbbbbbbbbbbbbbbbbbbbbbbbbbbbbbbbbbbbbbbbbbbbbbbbbbbbb".
+Definition mk (dg : string) (a : option amap) := mkD "application/vnd.oci.image.manifest.v1+json" dg 7 a "".
+Definition tagged (dg t : string) := mk dg (Some [(RefName, t)]).
+Definition tags_of (i : index) : list string :=
+  filter nonempty (map (ann_get RefName) (top i)).
+Definition run (ops : list iop) : option index :=
+  match apply_ops ops empty_index with Ok i => Some i | _ => None end.
+
+Example C18_hypotheses_satisfiable :
+  dvalid dA = true /\ rm_tag_of (tagged dM "t1") <> "" /\ d_dig (tagged dM "t1") <> ""
+  /\ exists i, run [OAdd (tagged dM "t1") []; OAdd (tagged dM "t2") []] = Some i
+               /\ Exists (fun e => d_dig e = dM) (top i).
+Proof.
+  repeat split; try discriminate.
+  eexists; split; [vm_compute; reflexivity|]. constructor. reflexivity.
+Qed.
+
+(* defect C18-F32 (repaired by "fix: Index.AddDesc reuses the entry already holding
+   the tag"): push M under t1,t2; push A; delete t2; delete A; push M under t1 again.
+   Before the repair the tag t1 was listed twice. *)
+Example C18_regress_F32 :
+  option_map tags_of
+    (run [OAdd (mk dA None) []; OAdd (tagged dM "t1") []; OAdd (tagged dM "t2") [];
+          ORm (tagged dM "t2"); ORm (mk dA None); OAdd (tagged dM "t1") []])
+  = Some ["t1"].
+Proof. vm_compute. reflexivity. Qed.
+
+(* defect C18-F31: a child stays addressable when the top-level list is empty *)
+Example C18_regress_F31 :
+  option_map (fun i => match get_desc dA i with Some _ => true | None => false end)
+    (run [OAddChildren [mk dA None]]) = Some true.
+Proof. vm_compute. reflexivity. Qed.
+
+(* defect C18-F23: a referrer annotation added on the digest keeps the tag *)
+Example C18_regress_F23 :
+  option_map (fun i => option_map d_dig (get_desc "t1" i))
+    (run [OAdd (tagged dM "t1") []; OAdd (mk dM (Some [(RefSubject, dA)])) []]) = Some (Some dM).
+Proof. vm_compute. reflexivity. Qed.
+
+Print Assumptions C18_no_panic.
+Print Assumptions C18_rm_digest_total.
+Print Assumptions C18_untag_keeps.
+Print Assumptions C18_lookup_iff.
